@@ -79,7 +79,25 @@ pub fn matches(obs: &Value, pats: &Value) -> bool {
     pats.iter().any(|p| match p["p"].as_str() {
         Some("any") => obs["p"] != "panic",
         Some("err") => obs["p"] == "err" && (p["cls"] == "*" || p["cls"] == obs["cls"]),
-        Some("ok")  => obs["p"] == "ok" && obs["v"] == p["v"] && obs["pos"] == p["pos"],
+        Some("ok")  => obs["p"] == "ok" && obs["pos"] == p["pos"] && value_matches(&obs["v"], &p["v"]),
         _ => false
     })
+}
+
+fn is_nan_bits(b: &[u8]) -> bool {
+    match b.len() {
+        2 => { let x = u16::from_be_bytes([b[0], b[1]]); (x & 0x7c00) == 0x7c00 && (x & 0x03ff) != 0 }
+        4 => f32::from_bits(u32::from_be_bytes([b[0], b[1], b[2], b[3]])).is_nan(),
+        8 => { let mut a = [0u8; 8]; a.copy_from_slice(b); f64::from_bits(u64::from_be_bytes(a)).is_nan() }
+        _ => false
+    }
+}
+
+/// Equality of an observed value with a specification value; the specification may say "some NaN".
+pub fn value_matches(obs: &Value, pat: &Value) -> bool {
+    match pat["k"].as_str() {
+        Some("floatnan") => obs["k"] == "float" && obs["w"] == pat["w"] && is_nan_bits(&get_bytes(&obs["bits"])),
+        Some("encf16nan") => { let b = get_bytes(&obs["b"]); obs["k"] == "enc" && b.len() == 3 && b[0] == 0xf9 && is_nan_bits(&b[1..]) }
+        _ => obs == pat
+    }
 }
